@@ -224,6 +224,13 @@ func (r *Run) valEq(st *State, a, b Value) (*smt.Term, error) {
 		}
 		return nil, fmt.Errorf("func compare")
 	case Slice:
+		if g, isG := b.(GSlice); isG {
+			// a byte slice and a generic slice can only be compared with nil
+			if x.ID == 0 || g.ID == 0 {
+				return smt.BoolC(x.ID == 0 && g.ID == 0), nil
+			}
+			return nil, fmt.Errorf("slice compare")
+		}
 		y, ok := b.(Slice)
 		if !ok {
 			return nil, fmt.Errorf("eq slice vs %T", b)
@@ -233,6 +240,12 @@ func (r *Run) valEq(st *State, a, b Value) (*smt.Term, error) {
 		}
 		return nil, fmt.Errorf("slice compare")
 	case GSlice:
+		if sl, isS := b.(Slice); isS {
+			if x.ID == 0 || sl.ID == 0 {
+				return smt.BoolC(x.ID == 0 && sl.ID == 0), nil
+			}
+			return nil, fmt.Errorf("slice compare")
+		}
 		y, ok := b.(GSlice)
 		if !ok {
 			return nil, fmt.Errorf("eq gslice vs %T", b)
